@@ -193,10 +193,16 @@ func (c *caseT) report() {
 			}
 			c.tr.Tag("wrong-eid")
 		case 3:
-			if len(eids) > 0 {
+			if len(eids) > 1 && r.Chance(2, 3) {
+				// same count, one requested id answered twice and another not at all (adjacent or not)
+				i := r.Intn(len(eids))
+				j := (i + 1 + r.Intn(len(eids)-1)) % len(eids)
+				eids[j] = eids[i]
+				c.tr.Tag("dup-eid-same-count")
+			} else if len(eids) > 0 {
 				eids = append(eids, eids[0])
+				c.tr.Tag("dup-eid")
 			}
-			c.tr.Tag("dup-eid")
 		case 4:
 			eids = nil
 			c.tr.Tag("empty-report")
